@@ -14,7 +14,7 @@ def types_header():
     out = ["/* GENERATED on every run from the headers of the current /repo tree - do not edit */",
            "#ifndef VERIF_TYPES_H", "#define VERIF_TYPES_H",
            "#include <stdint.h>", "#include <stddef.h>", "#include <stdbool.h>", "#include <string.h>",
-           "#include <math.h>", "#include <sys/types.h>",
+           "#include <math.h>", "#include <float.h>", "#include <sys/types.h>",
            '#include "opnmidi.h"   /* the public C header of the library, as is */']
     info = {}
     for en in re.findall(r"(?m)^enum\s+(\w+)\s*$", X.strip_comments(_read("include/opnmidi.h"))):
